@@ -3,6 +3,7 @@ import Flodym.Driver.DsmCmds
 import Flodym.Driver.SysCmds
 import Flodym.Driver.BuildCmds
 import Flodym.Driver.TableCmds
+import Flodym.Driver.ExportCmds
 open Flodym.Driver
 
 structure St where
@@ -10,6 +11,7 @@ structure St where
   dsm : DsmState := {}
   sys : SysState := {}
   build : BuildState := {}
+  exp : ExportState := {}
 
 def stepA (s : Store) (toks : List String) : Store × String :=
     match tableStep s toks with
@@ -42,6 +44,9 @@ def step (s : St) (line : String) : St × String :=
     | none =>
     match buildStep s.store s.build toks with
     | some (y, o) => ({ s with build := y }, o)
+    | none =>
+    match exportStep s.sys s.store s.exp toks with
+    | some (y, o) => ({ s with exp := y }, o)
     | none => let (st, o) := stepA s.store toks; ({ s with store := st }, o)
 
 partial def loop (h : IO.FS.Stream) (out : IO.FS.Stream) (s : St) : IO Unit := do
